@@ -129,6 +129,10 @@ def run(prop, tier, seed, replay=None):
     if not proof["ok"]:
         out.violation("%s/proof/%s" % (prop, proof["failing"]), "proof obligation no longer checks: %s" % proof["failing"],
                       {"theorem_or_file": proof["failing"], "log": proof["log"][-3000:]}, no_input=True)
+    async_cov = None
+    if prop == "C05" and not replay:
+        import check_async
+        async_cov = check_async.run("C05", tier, seed, extra=out)
     cov = {
         "obligations": proof["obligations"], "discharged": proof["discharged"],
         "evaluations": len(co), "distinct_nontrivial": len(nontriv),
@@ -140,6 +144,10 @@ def run(prop, tier, seed, replay=None):
         "samples": [co[i][0] for i in range(min(2, len(co)))],
         "impl_seconds": round(t_impl, 2),
     }
+    if async_cov:
+        cov["async_part"] = async_cov
+        cov["evaluations"] += async_cov.get("evaluations", 0)
+        cov["distinct_nontrivial"] += async_cov.get("distinct_nontrivial", 0)
     return out.finish(proof, cov)
 
 
